@@ -289,6 +289,44 @@ func (a *CNF) addUnit(lt *LitTable, l int32) {
 		}
 		next[Clause{u}.key()] = Clause{u}
 		a.cl = next
+		// integer pinning: c ≤ t and t < c+1 among the units give t == c (two units are needed, which the
+		// pairwise implies() cannot see)
+		if lu, _ := lt.get(u); lu.Kind == KLtC && lu.A != nil {
+			haveLo, haveHi := false, false
+			var lo, hi int64
+			if lu.A.Op == "len" {
+				haveLo = true // a length is never negative: `len(x) > 0` and `len(x) != 0` are one fact
+			}
+			for _, c := range a.cl {
+				if len(c) != 1 {
+					continue
+				}
+				lx, px := lt.get(c[0])
+				if lx.Kind != KLtC || lx.A != lu.A {
+					continue
+				}
+				if px { // t < C
+					if !haveHi || lx.C < hi {
+						haveHi, hi = true, lx.C
+					}
+				} else { // t ≥ C
+					if !haveLo || lx.C > lo {
+						haveLo, lo = true, lx.C
+					}
+				}
+			}
+			if haveLo && haveHi {
+				switch {
+				case hi <= lo:
+					a.bottom = true
+					return
+				case hi == lo+1:
+					if e := lt.id(Lit{Kind: KEqC, A: lu.A, C: lo}); !a.hasUnit(e) {
+						work = append(work, e)
+					}
+				}
+			}
+		}
 	}
 }
 
